@@ -153,3 +153,35 @@ class VNestedOperation(FloatOperation):
     def _process_logic(self, data, gain: float = 1.0, opts: dict = None):
         CALL_LOG.append(("VNestedOperation", data.data, gain))
         return FloatDataType(data.data * gain)
+
+
+from semantiva.data_io import DataSource  # noqa: E402
+
+
+class VPairSource(DataSource):
+    """Source with a required and a defaulted parameter: 10 * a + b."""
+
+    @classmethod
+    def _get_data(cls, a: float, b: float = 1.0):
+        CALL_LOG.append(("VPairSource", a, b))
+        return FloatDataType(float(10 * a + b))
+
+    @classmethod
+    def output_data_type(cls):
+        return FloatDataType
+
+
+class VPairOperation(FloatOperation):
+    """1000 * data + 10 * a + b."""
+
+    def _process_logic(self, data, a: float, b: float = 1.0):
+        CALL_LOG.append(("VPairOperation", data.data, a, b))
+        return FloatDataType(float(1000 * data.data + 10 * a + b))
+
+
+class VPairProbe(FloatProbe):
+    """Probe returning 1000 * data + 10 * a + b."""
+
+    def _process_logic(self, data, a: float, b: float = 1.0):
+        CALL_LOG.append(("VPairProbe", data.data, a, b))
+        return float(1000 * data.data + 10 * a + b)
